@@ -368,10 +368,13 @@ func checkC15(w *Worker) {
 			}
 			book = append(book, absRecipe{p, []absIng{{"X", c03Coef[i%len(c03Coef)]}}})
 		}
-		if !prefixFree(names) || len(names) == 0 {
-			x.Case("skip-not-prefix-free", false)
+		if len(names) == 0 {
+			x.Case("skip-no-food", false)
 			return
 		}
+		// a food may be a category of another one (a and a/b): then a row of a collapsed tree stands for more than a leaf, and
+		// what the modes must agree on is the top level - one row per first segment, with everything below it (and the grand total)
+		pf := prefixFree(names)
 		files := map[string]string{"food.yaml": renderBook(book), "log.yaml": renderLog(absLog{day})}
 		leavesOf := func(mode []string) (map[string]string, AppRun, appCase) {
 			args := append([]string{"--no-color", "bal"}, mode...)
@@ -386,6 +389,12 @@ func checkC15(w *Worker) {
 			}
 			leaves := map[string]string{}
 			for i, rw := range b.Rows {
+				if !pf {
+					if rw.Level == 0 {
+						leaves[strings.SplitN(rw.Label, "/", 2)[0]+"/..."] = rw.Amount
+					}
+					continue
+				}
 				if i+1 < len(b.Rows) && b.Rows[i+1].Level > rw.Level {
 					continue
 				}
